@@ -21,12 +21,20 @@ class Sleeper:
     k: int
     seconds: float
     block_sigterm: bool = False
+    external: bool = False
 
     def run(self):
         if self.block_sigterm:
             import signal
             signal.pthread_sigmask(signal.SIG_BLOCK, {signal.SIGTERM})   # a critical section that must not be cut short
         _log(f's{self.k}')
-        time.sleep(self.seconds)
+        if self.external:
+            # the work is done by a program the task launches and waits for (it inherits the worker's signal dispositions)
+            import subprocess
+            rc = subprocess.run(['sleep', str(self.seconds)]).returncode
+            if rc != 0:
+                raise RuntimeError(f'external program ended with {rc}')
+        else:
+            time.sleep(self.seconds)
         _log(f'f{self.k}')
         return self.k
